@@ -426,18 +426,19 @@ Qed.
 (* the whole heap: an allocation is put at most once on every model trace *)
 Definition Jf (f : fam) : Prop :=
   f_live f = (0 <? f_refs f) /\ f_puts f = (if f_live f then 0 else 1).
-Definition Jstep (f f' : fam) : Prop := (Jf f -> Jf f') /\ f_puts f <= f_puts f'.
+Definition Jstep (f f' : fam) : Prop := (Jf f -> Jf f') /\ f_puts f <= f_puts f' /\ f_bytes f' = f_bytes f.
 
 Lemma Jstep_refl f : Jstep f f.
-Proof. split; [auto | lia]. Qed.
+Proof. split; [auto | split; [lia | reflexivity]]. Qed.
 Lemma Jstep_trans a b c : Jstep a b -> Jstep b c -> Jstep a c.
-Proof. intros [H1 H2] [H3 H4]. split; [auto | lia]. Qed.
-Lemma Jstep_core f f' : f_refs f' = f_refs f -> f_live f' = f_live f -> f_puts f' = f_puts f -> Jstep f f'.
-Proof. intros H1 H2 H3. unfold Jstep, Jf. rewrite H1, H2, H3. split; [auto | lia]. Qed.
+Proof. intros (H1 & H2 & B1) (H3 & H4 & B2). split; [auto | split; [lia | congruence]]. Qed.
+Lemma Jstep_core f f' : f_refs f' = f_refs f -> f_live f' = f_live f -> f_puts f' = f_puts f ->
+  f_bytes f' = f_bytes f -> Jstep f f'.
+Proof. intros H1 H2 H3 H4. unfold Jstep, Jf. rewrite H1, H2, H3. split; [auto | split; [lia | exact H4]]. Qed.
 Lemma Jstep_root_ref f f' : root_ref f = Some f' -> Jstep f f'.
 Proof.
   unfold root_ref. destruct (f_refs f + 1 <=? 1) eqn:E; [discriminate|]. apply Z.leb_gt in E.
-  intros H. inversion H; subst. unfold Jstep, Jf, set_root. cbn. split; [|lia].
+  intros H. inversion H; subst. unfold Jstep, Jf, set_root. cbn. split; [|split; [lia | reflexivity]].
   intros [Hl Hp]. split; [|exact Hp]. rewrite Hl.
   destruct (Z.ltb_spec 0 (f_refs f)), (Z.ltb_spec 0 (f_refs f + 1)); auto; lia.
 Qed.
@@ -445,9 +446,9 @@ Lemma Jstep_root_free f f' : root_free f = Some f' -> Jstep f f'.
 Proof.
   unfold root_free. destruct (f_refs f - 1 <? 0) eqn:E; [discriminate|]. apply Z.ltb_ge in E.
   destruct (f_refs f - 1 >? 0) eqn:E2; intros H; inversion H; subst; unfold Jstep, Jf, set_root; cbn.
-  - apply Z.gtb_lt in E2. split; [|lia]. intros [Hl Hp]. split; [|exact Hp]. rewrite Hl.
+  - apply Z.gtb_lt in E2. split; [|split; [lia | reflexivity]]. intros [Hl Hp]. split; [|exact Hp]. rewrite Hl.
     destruct (Z.ltb_spec 0 (f_refs f)), (Z.ltb_spec 0 (f_refs f - 1)); auto; lia.
-  - split; [|lia]. intros [Hl Hp]. split; [reflexivity|].
+  - split; [|split; [lia | reflexivity]]. intros [Hl Hp]. split; [reflexivity|].
     assert (f_live f = true) by (rewrite Hl; apply Z.ltb_lt; lia). rewrite H0 in Hp. lia.
 Qed.
 Lemma Jstep_set_der f j d : Jstep f (set_der f j d).
@@ -496,34 +497,39 @@ Qed.
 Definition PJ (st : state) : Prop := forall i, (i < length (s_fams st))%nat -> Jf (get_fam st i).
 Definition good (st st' : state) : Prop :=
   (PJ st -> PJ st') /\ (forall i, f_puts (get_fam st i) <= f_puts (get_fam st' i)) /\
-  (length (s_fams st) <= length (s_fams st'))%nat.
+  (length (s_fams st) <= length (s_fams st'))%nat /\
+  (forall i, (i < length (s_fams st))%nat -> f_bytes (get_fam st' i) = f_bytes (get_fam st i)).
 Lemma good_refl st : good st st.
-Proof. unfold good. split; [auto|]. split; [intros; lia | lia]. Qed.
+Proof. unfold good. split; [auto|]. split; [intros; lia | split; [lia | reflexivity]]. Qed.
 Lemma good_trans a b c : good a b -> good b c -> good a c.
 Proof.
-  intros (H1 & H2 & H3) (H4 & H5 & H6). unfold good. split; [auto|]. split; [|lia].
-  intros i. specialize (H2 i). specialize (H5 i). lia.
+  intros (H1 & H2 & H3 & B1) (H4 & H5 & H6 & B2). unfold good. split; [auto|]. split; [|split; [lia|]].
+  - intros i. specialize (H2 i). specialize (H5 i). lia.
+  - intros i Hi. rewrite B2 by lia. apply B1, Hi.
 Qed.
 Lemma good_same st st' : s_fams st' = s_fams st -> good st st'.
 Proof.
-  intros E. unfold good, PJ, get_fam. rewrite E. split; [auto|]. split; [intros; lia | lia].
+  intros E. unfold good, PJ, get_fam. rewrite E. split; [auto|]. split; [intros; lia | split; [lia | reflexivity]].
 Qed.
 Lemma good_set_fam st i f' : Jstep (get_fam st i) f' -> good st (set_fam st i f').
 Proof.
-  intros [HJ Hp]. destruct (Nat.lt_ge_cases i (length (s_fams st))) as [Hi|Hi].
-  - unfold good, PJ, get_fam, set_fam in *. cbn [s_fams]. rewrite upd_length. split; [|split; [|lia]].
+  intros (HJ & Hp & Hb). destruct (Nat.lt_ge_cases i (length (s_fams st))) as [Hi|Hi].
+  - unfold good, PJ, get_fam, set_fam in *. cbn [s_fams]. rewrite upd_length. split; [|split; [|split; [lia|]]].
     + intros HP k Hk. destruct (Nat.eq_dec i k) as [->|Hne].
       * rewrite nth_upd_eq by exact Hk. apply HJ, HP, Hk.
       * rewrite nth_upd_neq by exact Hne. apply HP, Hk.
     + intros k. destruct (Nat.eq_dec i k) as [->|Hne].
       * rewrite nth_upd_eq by exact Hi. exact Hp.
       * rewrite nth_upd_neq by exact Hne. lia.
+    + intros k Hk. destruct (Nat.eq_dec i k) as [->|Hne].
+      * rewrite nth_upd_eq by exact Hi. exact Hb.
+      * rewrite nth_upd_neq by exact Hne. reflexivity.
   - apply good_same. unfold set_fam. cbn [s_fams]. apply upd_oob. exact Hi.
 Qed.
 Lemma good_new_buffer st bytes : good st (fst (new_buffer st bytes)).
 Proof.
   unfold new_buffer. destruct (zlen bytes <=? s_thr st); cbn [fst]; [apply good_refl|].
-  unfold good, PJ, get_fam. cbn [s_fams]. rewrite app_length. cbn [length]. split; [|split; [|lia]].
+  unfold good, PJ, get_fam. cbn [s_fams]. rewrite app_length. cbn [length]. split; [|split; [|split; [lia|]]].
   - intros HP i Hi. destruct (Nat.lt_ge_cases i (length (s_fams st))) as [Hl|Hl].
     + rewrite app_nth1 by exact Hl. apply HP, Hl.
     + assert (i = length (s_fams st)) by lia. subst i. rewrite app_nth2, Nat.sub_diag by lia.
@@ -534,6 +540,7 @@ Proof.
       destruct (Nat.eq_dec i (length (s_fams st))) as [->|Hne].
       * rewrite app_nth2, Nat.sub_diag by lia. cbn. lia.
       * rewrite nth_overflow; [cbn; lia | rewrite app_length; cbn; lia].
+  - intros i Hi. rewrite app_nth1 by exact Hi. reflexivity.
 Qed.
 
 Lemma good_h_ref st h st' : h_ref st h = Some st' -> good st st'.
@@ -722,7 +729,7 @@ Lemma clause1_step st st' seen : PJ st -> good st st' -> seen_ok seen st ->
   (forallb (fun p => negb (existsb (Z.eqb p) seen)) (puts_between st st') && nodup_z (puts_between st st')) = true /\
   seen_ok (puts_between st st' ++ seen) st'.
 Proof.
-  intros HP (HG & Hmono & Hlen) Hs. pose proof (HG HP) as HP'. split.
+  intros HP (HG & Hmono & Hlen & _) Hs. pose proof (HG HP) as HP'. split.
   - apply andb_true_iff. split; [|apply nodup_flat].
     apply forallb_forall. intros p Hp. apply negb_true_iff.
     destruct (existsb (Z.eqb p) seen) eqn:E; [|reflexivity].
@@ -739,27 +746,35 @@ Qed.
 
 Definition mop_wf (op : word) : bool := match get_mop op with Some _ => true | None => false end.
 
-Lemma buf_bridge : forall ops st seen, PJ st -> seen_ok seen st -> forallb mop_wf ops = true ->
-  exists obs, run_ops st ops = Some obs /\ length obs = length ops /\
-              forallb (fun c => snd c) (buf_clauses seen obs) = true.
+Lemma word_eqb_refl a : word_eqb a a = true.
+Proof. induction a as [|x a IH]; cbn; [reflexivity|]. rewrite Z.eqb_refl, IH. reflexivity. Qed.
+Lemma subset_z_refl l : subset_z l l = true.
 Proof.
-  induction ops as [|op r IH]; intros st seen HP Hs Hwf.
+  unfold subset_z. apply forallb_forall. intros x Hx. apply existsb_exists. exists x.
+  split; [exact Hx | apply Z.eqb_refl].
+Qed.
+
+Lemma buf_bridge : forall ops st seen k, PJ st -> seen_ok seen st -> forallb mop_wf ops = true ->
+  exists obs, run_ops st ops = Some obs /\
+              forallb (fun c => snd c) (buf_clauses st seen k ops obs) = true.
+Proof.
+  induction ops as [|op r IH]; intros st seen k HP Hs Hwf.
   - exists []. repeat split.
   - cbn [forallb] in Hwf. apply andb_true_iff in Hwf. destruct Hwf as [Hop Hr].
     unfold mop_wf in Hop. destruct (get_mop op) as [o|] eqn:Eo; [|discriminate].
     destruct (apply_op_ok st o) as (G & Hsh). cbn [run_ops]. rewrite Eo.
     destruct Hsh as [Hsk|(meta & bytes & Hob)].
-    + destruct (IH (fst (apply_op st o)) seen) as (obs & Hrun & Hlen & Hcl); [apply G, HP | | exact Hr |].
+    + destruct (IH (fst (apply_op st o)) seen (k + 1)) as (obs & Hrun & Hcl); [apply G, HP | | exact Hr |].
       { intros p Hp. destruct (Hs p Hp) as (i & -> & Hi). exists i. split; [reflexivity|].
-        destruct G as (HG & Hmono & _). pose proof (Hmono i). pose proof (proj1 (puts_range _ i (HG HP))). lia. }
-      rewrite Hrun. eexists. split; [reflexivity|]. split; [cbn [length]; lia|].
-      cbn [buf_clauses]. rewrite Hsk. cbn [is_skip]. unfold is_skip. cbn. exact Hcl.
+        destruct G as (HG & Hmono & _ & _). pose proof (Hmono i). pose proof (proj1 (puts_range _ i (HG HP))). lia. }
+      rewrite Hrun. eexists. split; [reflexivity|].
+      cbn [buf_clauses]. rewrite Eo, Hsk. unfold is_skip. cbn [word_eqb skip Z.eqb andb orb]. exact Hcl.
     + destruct (clause1_step st (fst (apply_op st o)) seen HP G Hs) as (Hc1 & Hs').
-      destruct (IH (fst (apply_op st o)) (puts_between st (fst (apply_op st o)) ++ seen)) as (obs & Hrun & Hlen & Hcl);
+      destruct (IH (fst (apply_op st o)) (puts_between st (fst (apply_op st o)) ++ seen) (k + 1)) as (obs & Hrun & Hcl);
         [apply G, HP | exact Hs' | exact Hr |].
-      rewrite Hrun. eexists. split; [reflexivity|]. split; [cbn [length]; lia|].
-      cbn [buf_clauses]. rewrite Hob. unfold is_skip, mk_obs at 1. cbn [word_eqb skip Z.eqb andb].
-      rewrite get_obs3_mk. cbn [forallb snd]. rewrite Hc1, Hcl. reflexivity.
+      rewrite Hrun. eexists. split; [reflexivity|].
+      cbn [buf_clauses]. rewrite Eo, Hob. unfold is_skip, mk_obs at 1 2. cbn [word_eqb skip Z.eqb andb orb].
+      rewrite get_obs3_mk. cbn [forallb snd]. rewrite Hc1, !subset_z_refl, word_eqb_refl, Hcl. reflexivity.
 Qed.
 
 (* ================================================================== *)
@@ -849,10 +864,10 @@ Proof.
   destruct cfg as [|c cfg']; [discriminate|].
   destruct (Z.eq_dec c 1) as [->|N1].
   { destruct cfg' as [|x [|? ?]]; try discriminate.
-    destruct (buf_bridge ops (init x) []) as (obs & Hrun & Hlen & Hcl); [| |exact H|].
+    destruct (buf_bridge ops (init x) [] 0) as (obs & Hrun & Hcl); [| |exact H|].
     - intros i Hi. cbn in Hi. lia.
     - intros p [].
-    - exists obs. split; [exact Hrun|]. rewrite Hlen, Nat.eqb_refl. exact Hcl. }
+    - exists obs. split; [exact Hrun | exact Hcl]. }
   destruct (Z.eq_dec c 2) as [->|N2].
   { destruct cfg' as [|x rest]; [discriminate|]. exact (pool_bridge x rest ops H). }
   exfalso. destruct c as [|p|p]; try discriminate.
